@@ -12,3 +12,4 @@ import MimicProps.C09
 #print axioms MimicProps.C09.kill_connection_terminates
 #print axioms MimicProps.C09.kill_closed_noop
 #print axioms MimicProps.C09.known_finding_kill_during_final_drain
+#print axioms MimicProps.C09.kill_guards_shape
